@@ -289,6 +289,78 @@ theorem sim_graph (h : SimHyp ti ti' p p' N F G S O R good Ienv Jo relN keep)
     simp only [ht', hfuel]
     exact sim_graph_at h _ _ t hgt hit hkt hFt hS
 
+theorem filter_keepK (G : Call → Call) (hG : ∀ k, (G k).id = k.id) (kp kq : String → Bool) (l : List Call) :
+    ((l.filter (fun k => kp k.id)).map G).filter (fun k => kq k.id)
+      = (l.filter (fun k => kp k.id && kq k.id)).map G := by
+  induction l with
+  | nil => rfl
+  | cons a t ih =>
+    cases h1 : kp a.id <;> cases h2 : kq a.id <;> simp [List.filter_cons, h1, h2, hG, ih]
+
+/-- `sim_nodes` for a restricted graph of the edited program: when the restriction `K`
+does not distinguish a callable from its image, the `K`-restricted graph after the edit
+is the image of the (`keep` ∧ `K`)-restricted graph before it -/
+theorem sim_nodesK (h : SimHyp ti ti' p p' N F G S O R good Ienv Jo relN keep)
+    (K : Callable → String → Bool) (hK : ∀ c, good c → ∀ i, K (F c) i = K c i) (big : Nat) :
+    ∀ fuel pipe self pre k, good pipe → Ienv pipe self → k ∈ pipe.calls → keep pipe k.id = true →
+      pipe.calls.find? (·.id == k.id) = some k →
+      nodesOfKeep K ti' p' big fuel (F pipe) (S pipe.name self) pre (G pipe k)
+        = (nodesOfKeep (fun c i => keep c i && K c i) ti p big fuel pipe self pre k).map (nodeMap N S O R) := by
+  intro fuel
+  induction fuel with
+  | zero => intros; rfl
+  | succ fuel ih =>
+    intro pipe self pre k hg hi hmem hkeep hk
+    rw [nodesOfKeep, nodesOfKeep]
+    simp only [h.hGdec pipe hg k hmem, h.hGid pipe k]
+    cases hd : p.find? k.decId with
+    | none => simp [h.hfind0 _ (h.hrel pipe hg k hmem) hd]
+    | some d =>
+      have ⟨hd', hgd⟩ := h.hfind1 _ _ hd
+      have hF := h.hF d hgd
+      have hsib := h.sibOK big pipe self pre hg hi
+      have hid := h.o1 pipe self _ k d k.id hg hi hsib hk hd
+      simp only [hd', hF.1, hF.2.1]
+      rw [h.c5 pipe self _ _ k d k.id hg hi hsib (sim_outputs h big pipe self pre hg hi) hkeep hk hd,
+          sim_outputs h (big + 1) pipe self pre hg hi k.id hkeep]
+      simp only [List.map_cons, nodeMap]
+      congr 1
+      · -- the node itself
+        have hout : Osib p O pipe (callOutputs ti p (big + 1) pipe self pre) k.id
+            = O d.name d.isPipe (callOutputs ti p (big + 1) pipe self pre k.id) := by
+          simp [Osib, calleeOf, hk, hd]
+        rw [hout]
+        cases hp : d.isPipe with
+        | false => simp
+        | true =>
+          simp only [if_true]
+          rw [h.c7 d _ _ _ hgd hp hid (h.sibOK big d _ _ hgd hid) (sim_outputs h big d _ _ hgd hid)]
+      · cases hp : d.isPipe with
+        | false => simp
+        | true =>
+          simp only [if_true]
+          have hKd : (fun k' : Call => K (F d) k'.id) = (fun k' : Call => K d k'.id) := by
+            funext k'; exact hK d hgd k'.id
+          rw [h.hcalls d hgd, hKd, filter_keepK (G d) (h.hGid d) (keep d) (K d), List.flatMap_map, List.map_flatMap]
+          apply flatMap_congr'
+          intro k' hk'
+          have hk'' := List.mem_filter.mp hk'
+          have hkk : keep d k'.id = true := by
+            have := hk''.2
+            simp only [Bool.and_eq_true] at this
+            exact this.1
+          exact ih d _ _ k' hgd hid hk''.1 hkk (h.hfirst d hgd k' hk''.1)
+
+theorem sim_graph_atK (h : SimHyp ti ti' p p' N F G S O R good Ienv Jo relN keep)
+    (K : Callable → String → Bool) (hK : ∀ c, good c → ∀ i, K (F c) i = K c i) (big fuel : Nat)
+    (t : Call) (hgt : good (topPipe t)) (hit : Ienv (topPipe t) []) (hkt : keep (topPipe t) t.id = true)
+    (hFt : F (topPipe t) = topPipe (G (topPipe t) t)) (hS : S "" [] = []) :
+    nodesOfKeep K ti' p' big fuel (topPipe (G (topPipe t) t)) [] [] (G (topPipe t) t)
+      = (nodesOfKeep (fun c i => keep c i && K c i) ti p big fuel (topPipe t) [] [] t).map (nodeMap N S O R) := by
+  have := sim_nodesK h K hK big fuel (topPipe t) [] [] t hgt hit (by simp [topPipe]) hkt (by simp [topPipe])
+  rw [hFt] at this
+  simpa [topPipe, hS] using this
+
 end Sim
 
 theorem filter_true' (l : List Call) : l.filter (fun _ => true) = l := by
